@@ -194,13 +194,13 @@ fn run_setext(run: &mut Run, id: u8, data: &[u8], present: bool, profile: u16, b
         }
         Err(e) => err_text(&e) } });
 }
-fn run_marshal(run: &mut Run, ncsrc: usize, has_ext: bool, ext_len: usize, payload: usize, pad: u8, nt: bool) {
-    let mut h = RtpHeader::new(96, 1, 2, 3);
+fn run_marshal(run: &mut Run, pt: u8, ncsrc: usize, has_ext: bool, ext_len: usize, payload: usize, pad: u8, nt: bool) {
+    let mut h = RtpHeader::new(pt, 1, 2, 3);
     h.csrcs = vec![7; ncsrc];
     if has_ext { h.extension = Some(RtpHeaderExtension::new(0xBEDE, vec![0; ext_len])); }
     let mut p = RtpPacket::new(h, vec![5; payload]);
     p.padding_len = pad;
-    let input = format!("{ncsrc} {} {ext_len} {payload} {pad}", has_ext as u8);
+    let input = format!("{pt} {ncsrc} {} {ext_len} {payload} {pad}", has_ext as u8);
     let total = (12 + 4 * ncsrc + if has_ext { 4 + ext_len } else { 0 } + payload + pad as usize) as u64;
     exec(run, "marshal", &input, "RtpPacket::marshal", nt, Some((1, 0, total)), move || {
         super::start_alloc();
@@ -254,7 +254,7 @@ pub fn special(run: &mut Run, rng: &mut Rng, thorough: bool) {
             for m in rtcp_reframed(&v) { super::run_bytes(run, t, &m, true); }
         }
     }
-    let profiles = [0xBEDEu16, 0x1000, 0x1234];
+    let profiles = [0xBEDEu16, 0x1000, 0x1005, 0x100F, 0x1010, 0x0FFF, 0x1234];
     // exhaustive: every block of length ≤ 1 (≤ 2 thorough) × every id × both profiles
     let mut small: Vec<Vec<u8>> = vec![vec![]];
     for a in 0..=255u8 { small.push(vec![a]); }
@@ -283,8 +283,9 @@ pub fn special(run: &mut Run, rng: &mut Rng, thorough: bool) {
     for _ in 0..(if thorough { 20_000 } else { 1_500 }) {
         let ncsrc = *rng.pick(&[0usize, 0, 1, 2, 15, 16, 17, 40]);
         let has_ext = rng.chance(1, 2);
-        let ext_len = *rng.pick(&[0usize, 1, 3, 4, 8, 12, 13, 1024]);
-        run_marshal(run, ncsrc, has_ext, ext_len, rng.below(300) as usize, *rng.pick(&[0u8, 0, 1, 4, 255]), true);
+        let ext_len = *rng.pick(&[0usize, 1, 3, 4, 8, 12, 13, 1024, 262140, 262144, 262148]);
+        let pt = *rng.pick(&[0u8, 96, 96, 127, 128, 255]);
+        run_marshal(run, pt, ncsrc, has_ext, ext_len, rng.below(300) as usize, *rng.pick(&[0u8, 0, 1, 4, 255]), true);
     }
 }
 
@@ -293,7 +294,7 @@ pub fn replay_special(run: &mut Run, stream: &str, a: &[&str]) -> bool {
     match (stream, a.len()) {
         ("getext", 4) => run_getext(run, p(a[0]) as u8, a[1] == "1", p(a[2]) as u16, &unhex(a[3]), true),
         ("setext", 5) => run_setext(run, p(a[0]) as u8, &unhex(a[1]), a[2] == "1", p(a[3]) as u16, &unhex(a[4]), true),
-        ("marshal", 5) => run_marshal(run, p(a[0]) as usize, a[1] == "1", p(a[2]) as usize, p(a[3]) as usize, p(a[4]) as u8, true),
+        ("marshal", 6) => run_marshal(run, p(a[0]) as u8, p(a[1]) as usize, a[2] == "1", p(a[3]) as usize, p(a[4]) as usize, p(a[5]) as u8, true),
         _ => return false,
     }
     true
